@@ -205,10 +205,10 @@ theorem markZombie_good (w : RW) (k : Nat) (h : Inv w) : Good w (markZombie w k)
 
 theorem barDraw_good (w : RW) (k : Nat) (force : Bool) (t : List Row) (h : Inv w) : Good w (barDraw w k force t) := by
   unfold barDraw
-  simp only []
   split
   · exact Good.refl w h
-  · exact (Good.congr w _ h rfl rfl rfl rfl).trans (draw_good _ _ _ (inv_congr w _ h rfl rfl rfl rfl))
+  · exact (Good.congr w (store w k (barRows (w.barAt k)) t) h rfl rfl rfl rfl).trans
+      (draw_good _ _ _ (inv_congr w (store w k (barRows (w.barAt k)) t) h rfl rfl rfl rfl))
 
 theorem setBar_good (w : RW) (k : Nat) (b : Bar) (h : Inv w) : Good w (setBar w k b) := Good.congr w _ h rfl rfl rfl rfl
 
@@ -216,15 +216,30 @@ theorem setBar_barDraw_good (w : RW) (k : Nat) (b : Bar) (force : Bool) (t : Lis
     Good w (barDraw (setBar w k b) k force t) :=
   (setBar_good w k b h).trans (barDraw_good _ k force t (setBar_good w k b h).1)
 
-theorem finishWith_good (w : RW) (k : Nat) (b : Bar) (f : Finish) (h : Inv w) : Good w (finishWith w k b f) := by
-  unfold finishWith
-  exact setBar_barDraw_good w k _ true [] h
+theorem finishWith_good (w : RW) (k : Nat) (b : Bar) (f : Finish) (h : Inv w) : Good w (finishWith w k b f) :=
+  setBar_barDraw_good w k _ true [] h
 
 /-- the one operation outside the abstraction: output written by the `suspend` closure of a bar that has
 been removed from its `MultiProgress` while the multi still manages rows (it lands below the frame) -/
 def Clean (w : RW) : MOp → Prop
   | .bar k (.suspend out) => (w.barAt k).member = true ∨ out = [] ∨ managed w = 0
   | _ => True
+
+theorem finishIfNot_good (w : RW) (k : Nat) (h : Inv w) : Good w (finishIfNot w k) := by
+  unfold finishIfNot
+  split
+  · exact Good.refl w h
+  · exact finishWith_good _ _ _ _ h
+
+theorem dropBar_good (w : RW) (k : Nat) (h : Inv w) : Good w (dropBar w k) := by
+  unfold dropBar
+  simp only []
+  have h1 := finishIfNot_good w k h
+  have h2 : Good w (if (w.barAt k).member = true then markZombie (finishIfNot w k) k else finishIfNot w k) := by
+    split
+    · exact h1.trans (markZombie_good _ _ h1.1)
+    · exact h1
+  exact h2.trans (Good.congr _ _ h2.1 rfl rfl rfl rfl)
 
 theorem barStep_good (w : RW) (k : Nat) (op : BarOp) (h : Inv w) (hc : Clean w (.bar k op)) : Good w (barStep w k op) := by
   unfold barStep
@@ -257,19 +272,7 @@ theorem barStep_good (w : RW) (k : Nat) (op : BarOp) (h : Inv w) (hc : Clean w (
       | reset => exact setBar_barDraw_good w k _ _ _ h
       | finish f => exact finishWith_good _ _ _ _ h
       | finishUsingStyle => exact finishWith_good _ _ _ _ h
-      | drop =>
-        simp only []
-        have h1 : Good w (if (w.barAt k).b.finished = true then w else finishWith w k (w.barAt k).b (w.barAt k).b.onFinish) := by
-          split
-          · exact Good.refl w h
-          · exact finishWith_good _ _ _ _ h
-        have h2 : Good w (if (w.barAt k).member = true then
-            markZombie (if (w.barAt k).b.finished = true then w else finishWith w k (w.barAt k).b (w.barAt k).b.onFinish) k
-            else (if (w.barAt k).b.finished = true then w else finishWith w k (w.barAt k).b (w.barAt k).b.onFinish)) := by
-          split
-          · exact h1.trans (markZombie_good _ _ h1.1)
-          · exact h1
-        exact h2.trans (Good.congr _ _ h2.1 rfl rfl rfl rfl)
+      | drop => exact dropBar_good w k h
 
 theorem step_good (w : RW) (op : MOp) (h : Inv w) (hc : Clean w op) : Good w (step w op) := by
   unfold step
@@ -316,5 +319,572 @@ theorem draw_forced_log (w : RW) (extra : List Row) : (draw w true extra).log = 
   have hallow : allow w (true || decide (w.orphan ≠ [])) = (true, w) := by simp [allow]
   simp only [draw, hallow, Bool.not_true, Bool.false_eq_true, if_false]
   rfl
+
+end IndicatifModel.Rows
+
+/-! ### The frame shows the members (helper lemmas for C02) -/
+namespace IndicatifModel.Rows
+
+/-- `FrameOk w`: unless the frame is stale, the bottom `n` rows of the screen are, in visual order, the rows
+each member had in the last painted frame; and every finished member's stored rendering is the painted one
+(draws of finished bars are forced) -/
+structure FrameOk (w : RW) : Prop where
+  frame : w.stale = false → w.n ≤ w.scr.length ∧ w.scr.drop (w.scr.length - w.n) = paintedOf w w.ordering
+  synced : ∀ k, k < w.bars.length → (w.barAt k).b.finished = true → (w.barAt k).member = true →
+    (w.barAt k).painted = (w.barAt k).lines
+
+theorem barAt_map_painted (w : RW) (k : Nat) :
+    (({ w with bars := w.bars.map (fun rb => { rb with painted := rb.lines }) } : RW).barAt k).lines = (w.barAt k).lines ∧
+    (({ w with bars := w.bars.map (fun rb => { rb with painted := rb.lines }) } : RW).barAt k).painted = (w.barAt k).lines := by
+  simp only [RW.barAt, List.getD_eq_getElem?_getD, List.getElem?_map]
+  cases h : w.bars[k]? <;> simp
+
+theorem paintedOf_append (w : RW) (a b : List Nat) : paintedOf w (a ++ b) = paintedOf w a ++ paintedOf w b := by
+  simp [paintedOf]
+
+/-- right after a painted draw the bottom `n` rows are exactly the stored renderings of the remaining
+members, in visual order, and every bar's painted rows are its stored ones -/
+theorem paint_frame (w : RW) (extra : List Row) :
+    let w' := paint w extra
+    w'.stale = false ∧ w'.n ≤ w'.scr.length ∧ w'.scr.drop (w'.scr.length - w'.n) = linesOf w' w'.ordering ∧
+    (∀ k, (w'.barAt k).painted = (w'.barAt k).lines) ∧ (∀ k, (w'.barAt k).lines = (w.barAt k).lines) ∧
+    (∀ k, (w'.barAt k).b = (w.barAt k).b ∧ (w'.barAt k).member = (w.barAt k).member) ∧ w'.bars.length = w.bars.length := by
+  intro w'
+  -- the reaped prefix and the rest of the ordering
+  have hsplit : ∀ (p : Nat → Bool), w.ordering = w.ordering.takeWhile p ++ w.ordering.drop (w.ordering.takeWhile p).length := by
+    intro p
+    conv => lhs; rw [← List.takeWhile_append_dropWhile (p := p) (l := w.ordering)]
+    congr 1
+    induction w.ordering with
+    | nil => rfl
+    | cons a l ih =>
+      by_cases h : p a
+      · simp [List.dropWhile_cons, List.takeWhile_cons, h, ih]
+      · simp [List.dropWhile_cons, List.takeWhile_cons, h]
+  have hbar : ∀ k, (w'.barAt k).lines = (w.barAt k).lines ∧ (w'.barAt k).painted = (w.barAt k).lines := by
+    intro k
+    have := barAt_map_painted w k
+    simpa [w', paint, RW.barAt] using this
+  have hlines : ∀ ks, linesOf w' ks = linesOf w ks := by
+    intro ks; simp only [linesOf]; congr 1; funext k; exact (hbar k).1
+  have hb : ∀ k, (w'.barAt k).b = (w.barAt k).b ∧ (w'.barAt k).member = (w.barAt k).member := by
+    intro k
+    simp only [w', paint, RW.barAt, List.getD_eq_getElem?_getD, List.getElem?_map]
+    cases h : w.bars[k]? <;> simp
+  refine ⟨rfl, ?_, ?_, fun k => by rw [(hbar k).2, (hbar k).1], fun k => (hbar k).1, hb, by simp [w', paint]⟩
+  · simp only [w', paint, List.length_append]; omega
+  · rw [hlines]
+    by_cases ht : (decide (extra ≠ []) || decide (w.orphan ≠ [])) = true
+    · have hs : w'.scr = (w.scr.take (w.scr.length - (if w.blank && decide (1 ≤ w.n + w.z) then w.n + w.z - 1 else w.n + w.z))
+          ++ (extra ++ w.orphan)) ++ linesOf w w.ordering := by simp only [w', paint, ht, if_true]
+      have hn : w'.n = (linesOf w w.ordering).length := by
+        have hl0 : (linesOf w ([] : List Nat)).length = 0 := rfl
+        simp only [w', paint, ht, if_true, hl0, Nat.sub_zero]
+      have ho : w'.ordering = w.ordering := by simp only [w', paint, ht, if_true, List.length_nil, List.drop_zero]
+      rw [hs, hn, ho, List.length_append, Nat.add_sub_cancel, List.drop_left']
+      rfl
+    · have ht' : (decide (extra ≠ []) || decide (w.orphan ≠ [])) = false := by simpa using ht
+      have hex : extra = [] := Classical.byContradiction (fun hne => by simp [hne] at ht')
+      have hor : w.orphan = [] := Classical.byContradiction (fun hne => by simp [hne] at ht')
+      subst hex
+      have hsp := hsplit (fun k => (w.barAt k).zombie)
+      have hs : w'.scr = (w.scr.take (w.scr.length - (if w.blank && decide (1 ≤ w.n) then w.n - 1 else w.n))
+          ++ linesOf w (w.ordering.takeWhile (fun k => (w.barAt k).zombie)))
+          ++ linesOf w (w.ordering.drop (w.ordering.takeWhile (fun k => (w.barAt k).zombie)).length) := by
+        have : linesOf w w.ordering = linesOf w (w.ordering.takeWhile (fun k => (w.barAt k).zombie)) ++
+            linesOf w (w.ordering.drop (w.ordering.takeWhile (fun k => (w.barAt k).zombie)).length) := by
+          conv => lhs; rw [hsp]
+          exact linesOf_append w _ _
+        simp only [w', paint, hor, List.append_nil]
+        simp [this, List.append_assoc]
+      have hn : w'.n = (linesOf w (w.ordering.drop (w.ordering.takeWhile (fun k => (w.barAt k).zombie)).length)).length := by
+        have : (linesOf w w.ordering).length = (linesOf w (w.ordering.takeWhile (fun k => (w.barAt k).zombie))).length +
+            (linesOf w (w.ordering.drop (w.ordering.takeWhile (fun k => (w.barAt k).zombie)).length)).length := by
+          conv => lhs; rw [hsp, linesOf_append, List.length_append]
+        simp only [w', paint, hor]
+        simp
+        omega
+      have ho : w'.ordering = w.ordering.drop (w.ordering.takeWhile (fun k => (w.barAt k).zombie)).length := by
+        simp [w', paint, hor]
+      rw [hs, hn, ho, List.length_append, Nat.add_sub_cancel, List.drop_left']
+      rfl
+
+end IndicatifModel.Rows
+
+namespace IndicatifModel.Rows
+
+theorem frameOk_paint (w : RW) (extra : List Row) : FrameOk (paint w extra) := by
+  obtain ⟨_, h2, h3, h4, _, _, _⟩ := paint_frame w extra
+  constructor
+  · intro _
+    refine ⟨h2, ?_⟩
+    rw [h3]
+    simp only [linesOf, paintedOf]
+    congr 1; funext k; exact (h4 k).symm
+  · intro k _ _ _; exact h4 k
+
+theorem allow_false (w : RW) (f : Bool) (h : (allow w f).1 = false) : f = false := by
+  unfold allow at h
+  cases f with
+  | false => rfl
+  | true => simp at h
+
+/-- a draw is either skipped by the limiter (then it was not forced and nothing but the limiter changed) or it paints -/
+theorem draw_cases (w : RW) (force : Bool) (extra : List Row) :
+    (draw w force extra = (allow w (force || decide (w.orphan ≠ []))).2 ∧ force = false ∧ w.orphan = []) ∨
+    draw w force extra = paint (allow w (force || decide (w.orphan ≠ []))).2 extra := by
+  unfold draw
+  simp only []
+  by_cases hgo : (allow w (force || decide (w.orphan ≠ []))).1 = true
+  · right; simp only [hgo, Bool.not_true, Bool.false_eq_true, if_false]
+  · left
+    have hgo' : (allow w (force || decide (w.orphan ≠ []))).1 = false := by simpa using hgo
+    have hf := allow_false _ _ hgo'
+    simp only [Bool.or_eq_false_iff, decide_eq_false_iff_not, ne_eq, Decidable.not_not] at hf
+    exact ⟨by simp only [hgo', Bool.not_false, if_true], hf.1, hf.2⟩
+
+/-- the part of the state the frame invariant talks about -/
+def SameFrame (w w' : RW) : Prop :=
+  w'.scr = w.scr ∧ w'.n = w.n ∧ w'.ordering = w.ordering ∧ w'.stale = w.stale ∧ w'.bars.length = w.bars.length ∧
+  ∀ j, (w'.barAt j).painted = (w.barAt j).painted
+
+theorem frameOk_same (w w' : RW) (h : FrameOk w) (hs : SameFrame w w')
+    (hsync : ∀ j, j < w'.bars.length → (w'.barAt j).b.finished = true → (w'.barAt j).member = true →
+      (w'.barAt j).painted = (w'.barAt j).lines) : FrameOk w' := by
+  obtain ⟨h1, h2, h3, h4, _, h6⟩ := hs
+  constructor
+  · intro hst
+    rw [h4] at hst
+    have := h.frame hst
+    rw [h1, h2, h3]
+    refine ⟨this.1, ?_⟩
+    rw [this.2]
+    simp only [paintedOf]
+    congr 1; funext j; exact (h6 j).symm
+  · exact hsync
+
+theorem frameOk_allow (w : RW) (f : Bool) (h : FrameOk w) : FrameOk (allow w f).2 := by
+  have hb : (allow w f).2.bars = w.bars ∧ (allow w f).2.ordering = w.ordering ∧ (allow w f).2.stale = w.stale ∧
+      (allow w f).2.scr = w.scr ∧ (allow w f).2.n = w.n := by
+    unfold allow
+    split
+    · simp
+    · split <;> simp
+  obtain ⟨b1, b2, b3, b4, b5⟩ := hb
+  refine frameOk_same w _ h ⟨b4, b5, b2, b3, by rw [b1], fun j => by simp only [RW.barAt, b1]⟩ ?_
+  intro j hj hf hm
+  simp only [RW.barAt, b1] at hj hf hm ⊢
+  exact h.synced j hj hf hm
+
+theorem frameOk_draw (w : RW) (force : Bool) (extra : List Row) (h : FrameOk w) : FrameOk (draw w force extra) := by
+  rcases draw_cases w force extra with ⟨he, _, _⟩ | he
+  · rw [he]; exact frameOk_allow w _ h
+  · rw [he]; exact frameOk_paint _ _
+
+/-- a forced draw establishes the frame invariant whatever the state was -/
+theorem frameOk_draw_forced (w : RW) (extra : List Row) : FrameOk (draw w true extra) := by
+  rcases draw_cases w true extra with ⟨_, hf, _⟩ | he
+  · exact absurd hf (by simp)
+  · rw [he]; exact frameOk_paint _ _
+
+theorem barAt_modify (bars : List RBar) (k j : Nat) (f : RBar → RBar) :
+    (bars.modify k f).getD j { b := {} } = if j = k ∧ k < bars.length then f (bars.getD j { b := {} }) else bars.getD j { b := {} } := by
+  simp only [List.getD_eq_getElem?_getD, List.getElem?_modify]
+  by_cases hj : j = k
+  · subst hj
+    by_cases hk : j < bars.length
+    · simp [hk, List.getElem?_eq_getElem hk]
+    · simp [hk, List.getElem?_eq_none (by omega : bars.length ≤ j)]
+  · have : ¬ k = j := fun h => hj h.symm
+    simp [hj, this]
+
+theorem store_barAt (w : RW) (k : Nat) (rows text : List Row) (j : Nat) :
+    ((store w k rows text).barAt j).painted = (w.barAt j).painted ∧ ((store w k rows text).barAt j).b = (w.barAt j).b ∧
+    ((store w k rows text).barAt j).member = (w.barAt j).member ∧
+    (j ≠ k → ((store w k rows text).barAt j).lines = (w.barAt j).lines) := by
+  have e : (store w k rows text).barAt j = if j = k ∧ k < w.bars.length then { w.barAt j with lines := rows } else w.barAt j :=
+    barAt_modify w.bars k j _
+  rw [e]
+  by_cases h : j = k ∧ k < w.bars.length
+  · rw [if_pos h]; exact ⟨rfl, rfl, rfl, fun hne => absurd h.1 hne⟩
+  · rw [if_neg h]; exact ⟨rfl, rfl, rfl, fun _ => rfl⟩
+
+theorem setBar_barAt (w : RW) (k : Nat) (b : Bar) (j : Nat) :
+    ((setBar w k b).barAt j).painted = (w.barAt j).painted ∧ ((setBar w k b).barAt j).lines = (w.barAt j).lines ∧
+    ((setBar w k b).barAt j).member = (w.barAt j).member ∧
+    (j ≠ k → ((setBar w k b).barAt j).b = (w.barAt j).b) ∧ (j = k → k < w.bars.length → ((setBar w k b).barAt j).b = b) := by
+  have e : (setBar w k b).barAt j = if j = k ∧ k < w.bars.length then { w.barAt j with b := b } else w.barAt j :=
+    barAt_modify w.bars k j _
+  rw [e]
+  by_cases h : j = k ∧ k < w.bars.length
+  · rw [if_pos h]; exact ⟨rfl, rfl, rfl, fun hne => absurd h.1 hne, fun _ _ => rfl⟩
+  · rw [if_neg h]; exact ⟨rfl, rfl, rfl, fun _ => rfl, fun h1 h2 => absurd ⟨h1, h2⟩ h⟩
+
+/-- a draw request of bar `k` keeps the invariant provided every *other* finished member is in sync
+(bar `k` itself is repainted if it is finished, because its draws are then forced) -/
+theorem frameOk_request (w : RW) (k : Nat) (force : Bool) (t : List Row)
+    (hframe : w.stale = false → w.n ≤ w.scr.length ∧ w.scr.drop (w.scr.length - w.n) = paintedOf w w.ordering)
+    (hothers : ∀ j, j ≠ k → j < w.bars.length → (w.barAt j).b.finished = true → (w.barAt j).member = true →
+      (w.barAt j).painted = (w.barAt j).lines) : FrameOk (barDraw w k force t) := by
+  unfold barDraw
+  split
+  · -- detached: nothing happens; bar k is not a member
+    rename_i hmem
+    have hmem' : (w.barAt k).member = false := by simpa using hmem
+    refine ⟨hframe, ?_⟩
+    intro j hj hf hm
+    by_cases hjk : j = k
+    · subst hjk; rw [hmem'] at hm; exact absurd hm (by simp)
+    · exact hothers j hjk hj hf hm
+  · rcases draw_cases (store w k (barRows (w.barAt k)) t) (force || (w.barAt k).b.finished) [] with ⟨he, hf, _⟩ | he
+    · -- skipped: not forced, hence bar k is not finished
+      rw [he]
+      simp only [Bool.or_eq_false_iff] at hf
+      apply frameOk_allow
+      have hst : (store w k (barRows (w.barAt k)) t).stale = w.stale := rfl
+      constructor
+      · intro hs
+        have := hframe hs
+        refine ⟨this.1, ?_⟩
+        show w.scr.drop (w.scr.length - w.n) = paintedOf (store w k _ t) w.ordering
+        rw [this.2]
+        simp only [paintedOf]
+        congr 1; funext j; exact ((store_barAt w k _ t j).1).symm
+      · intro j hj hfj hm
+        have hlen : (store w k (barRows (w.barAt k)) t).bars.length = w.bars.length := by simp [store]
+        obtain ⟨s1, s2, s3, s4⟩ := store_barAt w k (barRows (w.barAt k)) t j
+        rw [s2] at hfj; rw [s3] at hm
+        by_cases hjk : j = k
+        · subst hjk; rw [hf.2] at hfj; exact absurd hfj (by simp)
+        · rw [s1, s4 hjk]; exact hothers j hjk (by omega) hfj hm
+    · rw [he]; exact frameOk_paint _ _
+
+theorem frameOk_barDraw (w : RW) (k : Nat) (force : Bool) (t : List Row) (h : FrameOk w) : FrameOk (barDraw w k force t) :=
+  frameOk_request w k force t h.frame (fun j _ hj hf hm => h.synced j hj hf hm)
+
+/-- a state change of bar `k` followed by its draw request: whatever the new logical state is -/
+theorem frameOk_setBar_barDraw (w : RW) (k : Nat) (b : Bar) (force : Bool) (t : List Row) (h : FrameOk w) :
+    FrameOk (barDraw (setBar w k b) k force t) := by
+  apply frameOk_request
+  · intro hs
+    have hs' : w.stale = false := hs
+    have := h.frame hs'
+    refine ⟨this.1, ?_⟩
+    show w.scr.drop (w.scr.length - w.n) = paintedOf (setBar w k b) w.ordering
+    rw [this.2]
+    simp only [paintedOf]
+    congr 1; funext j; exact ((setBar_barAt w k b j).1).symm
+  · intro j hjk hj hf hm
+    have hlen : (setBar w k b).bars.length = w.bars.length := by simp [setBar]
+    obtain ⟨s1, s2, s3, s4, _⟩ := setBar_barAt w k b j
+    rw [s4 hjk] at hf; rw [s3] at hm
+    rw [s1, s2]; exact h.synced j (by omega) hf hm
+
+/-- changing the logical state of a bar to one with the same finished flag, without a draw request -/
+theorem frameOk_setBar (w : RW) (k : Nat) (b : Bar) (h : FrameOk w) (hfin : b.finished = (w.barAt k).b.finished) :
+    FrameOk (setBar w k b) := by
+  refine frameOk_same w _ h ⟨rfl, rfl, rfl, rfl, by simp [setBar], fun j => (setBar_barAt w k b j).1⟩ ?_
+  intro j hj hf hm
+  have hlen : (setBar w k b).bars.length = w.bars.length := by simp [setBar]
+  obtain ⟨s1, s2, s3, s4, s5⟩ := setBar_barAt w k b j
+  rw [s3] at hm
+  rw [s1, s2]
+  by_cases hjk : j = k
+  · rw [s5 hjk (by subst hjk; omega), hfin] at hf
+    subst hjk
+    exact h.synced j (by omega) hf hm
+  · rw [s4 hjk] at hf; exact h.synced j (by omega) hf hm
+
+end IndicatifModel.Rows
+
+namespace IndicatifModel.Rows
+
+theorem frameOk_clear (w : RW) (h : FrameOk w) : FrameOk (clear w) :=
+  ⟨fun hs => absurd hs (by simp [clear]), fun j hj hf hm => h.synced j hj hf hm⟩
+
+/-- any state whose frame is stale satisfies the frame clause; the sync clause only depends on the bars -/
+theorem frameOk_stale (w w' : RW) (h : FrameOk w) (hst : w'.stale = true) (hb : w'.bars = w.bars) : FrameOk w' := by
+  constructor
+  · intro hs; rw [hst] at hs; exact absurd hs (by simp)
+  · intro j hj hf hm
+    simp only [RW.barAt, hb] at hj hf hm ⊢
+    exact h.synced j hj hf hm
+
+theorem frameOk_suspend (w : RW) (out : List Row) : FrameOk (suspend w out) := by
+  unfold suspend
+  exact frameOk_draw_forced _ _
+
+/-- marking bar `k` as zombie, or reaping it at once when it is first, finished and in sync -/
+theorem frameOk_markZombie (w : RW) (k : Nat) (h : FrameOk w) (hk : k < w.bars.length)
+    (hfin : (w.barAt k).b.finished = true) (hmem : (w.barAt k).member = true) : FrameOk (markZombie w k) := by
+  unfold markZombie
+  split
+  · -- deferred: only the flag changes
+    refine frameOk_same w _ h ⟨rfl, rfl, rfl, rfl, by simp, ?_⟩ ?_
+    · intro j
+      simp only [RW.barAt, barAt_modify]; split <;> rfl
+    · intro j hj hf hm
+      simp only [List.length_modify] at hj
+      simp only [RW.barAt, barAt_modify] at hf hm ⊢
+      by_cases hjk : j = k ∧ k < w.bars.length
+      · rw [if_pos hjk] at hf hm ⊢
+        exact h.synced j hj hf hm
+      · rw [if_neg hjk] at hf hm ⊢
+        exact h.synced j hj hf hm
+  · rename_i hcond
+    have hhead : w.ordering.head? = some k := Classical.byContradiction (fun hne => hcond (Or.inl hne))
+    have hst : w.stale = false := by
+      cases hs : w.stale with
+      | false => rfl
+      | true => exact absurd (Or.inr hs) hcond
+    obtain ⟨rest, hord⟩ : ∃ rest, w.ordering = k :: rest := by
+      cases ho : w.ordering with
+      | nil => rw [ho] at hhead; simp at hhead
+      | cons a rest => rw [ho] at hhead; simp at hhead; exact ⟨rest, by rw [hhead]⟩
+    obtain ⟨hle, hfr⟩ := h.frame hst
+    have hsync := h.synced k hk hfin hmem
+    rw [hord] at hfr
+    simp only [paintedOf, List.flatMap_cons] at hfr
+    have hn : w.n = (w.barAt k).painted.length + (paintedOf w rest).length := by
+      have := congrArg List.length hfr
+      simp only [List.length_drop, List.length_append, paintedOf] at this ⊢
+      omega
+    constructor
+    · intro _
+      simp only [hord, List.tail_cons]
+      rw [← hsync] at *
+      refine ⟨by omega, ?_⟩
+      have hd : w.scr.length - (w.n - (w.barAt k).painted.length) = (w.scr.length - w.n) + (w.barAt k).painted.length := by omega
+      rw [hd, ← List.drop_drop, hfr, List.drop_left']
+      · rfl
+      · rfl
+    · intro j hj hf hm; exact h.synced j hj hf hm
+
+end IndicatifModel.Rows
+
+namespace IndicatifModel.Rows
+
+theorem finalBar_finished (b : Bar) (f : Finish) : (finalBar b f).finished = true := by
+  have hs : (finalBar b f).status ≠ .inProgress := by
+    cases f <;> simp only [finalBar] <;> (try split) <;> simp
+  simp [Bar.finished, hs]
+
+theorem allow_bars (w : RW) (f : Bool) : (allow w f).2.bars = w.bars := by
+  unfold allow; split
+  · rfl
+  · split <;> rfl
+
+/-- drawing never changes a bar's logical state, its membership or the number of bars -/
+theorem draw_bars (w : RW) (force : Bool) (extra : List Row) (j : Nat) :
+    ((draw w force extra).barAt j).b = (w.barAt j).b ∧ ((draw w force extra).barAt j).member = (w.barAt j).member ∧
+    (draw w force extra).bars.length = w.bars.length := by
+  rcases draw_cases w force extra with ⟨he, _, _⟩ | he
+  · rw [he]; exact ⟨by simp only [RW.barAt, allow_bars], by simp only [RW.barAt, allow_bars], by rw [allow_bars]⟩
+  · rw [he]
+    obtain ⟨_, _, _, _, _, hbm, hl⟩ := paint_frame (allow w (force || decide (w.orphan ≠ []))).2 extra
+    refine ⟨?_, ?_, ?_⟩
+    · rw [(hbm j).1]; simp only [RW.barAt, allow_bars]
+    · rw [(hbm j).2]; simp only [RW.barAt, allow_bars]
+    · rw [hl, allow_bars]
+
+theorem barDraw_bars (w : RW) (k : Nat) (force : Bool) (t : List Row) (j : Nat) :
+    ((barDraw w k force t).barAt j).b = (w.barAt j).b ∧ ((barDraw w k force t).barAt j).member = (w.barAt j).member ∧
+    (barDraw w k force t).bars.length = w.bars.length := by
+  unfold barDraw
+  split
+  · exact ⟨rfl, rfl, rfl⟩
+  · obtain ⟨d1, d2, d3⟩ := draw_bars (store w k (barRows (w.barAt k)) t) (force || (w.barAt k).b.finished) [] j
+    obtain ⟨_, s2, s3, _⟩ := store_barAt w k (barRows (w.barAt k)) t j
+    exact ⟨d1.trans s2, d2.trans s3, by rw [d3]; simp [store]⟩
+
+theorem finishWith_finished (w : RW) (k : Nat) (b : Bar) (f : Finish) (hk : k < w.bars.length) :
+    ((finishWith w k b f).barAt k).b.finished = true ∧ ((finishWith w k b f).barAt k).member = (w.barAt k).member ∧
+    (finishWith w k b f).bars.length = w.bars.length := by
+  unfold finishWith
+  obtain ⟨b1, b2, b3⟩ := barDraw_bars (setBar w k (finalBar b f)) k true [] k
+  obtain ⟨_, _, s3, _, s5⟩ := setBar_barAt w k (finalBar b f) k
+  refine ⟨?_, b2.trans s3, by rw [b3]; simp [setBar]⟩
+  rw [b1, s5 rfl hk]; exact finalBar_finished b f
+
+theorem frameOk_finishWith (w : RW) (k : Nat) (b : Bar) (f : Finish) (h : FrameOk w) : FrameOk (finishWith w k b f) :=
+  frameOk_setBar_barDraw w k _ true [] h
+
+end IndicatifModel.Rows
+
+namespace IndicatifModel.Rows
+
+/-- output that lands below an existing frame (only possible through the `suspend` of a detached bar) -/
+theorem frameOk_output (w : RW) (out : List Row) (b : Bool) (h : FrameOk w) (hc : out = [] ∨ w.n = 0) :
+    FrameOk { w with scr := w.scr ++ out, log := w.log ++ out, blank := b } := by
+  constructor
+  · intro hs
+    have hs' : w.stale = false := hs
+    obtain ⟨h1, h2⟩ := h.frame hs'
+    show w.n ≤ (w.scr ++ out).length ∧ (w.scr ++ out).drop ((w.scr ++ out).length - w.n) = paintedOf w w.ordering
+    rcases hc with rfl | hn
+    · rw [List.append_nil]; exact ⟨h1, h2⟩
+    · rw [hn] at h2 ⊢
+      simp only [Nat.sub_zero, List.drop_length] at h2 ⊢
+      exact ⟨Nat.zero_le _, h2⟩
+  · intro j hj hf hm; exact h.synced j hj hf hm
+
+theorem posAllow_finished (b : Bar) (now : Nat) : (b.posAllow now).2.finished = b.finished := by
+  unfold Bar.posAllow
+  split <;> rfl
+
+theorem finished_pos (b : Bar) (p : Nat) : ({ b with pos := p } : Bar).finished = b.finished := rfl
+
+theorem finishIfNot_facts (w : RW) (k : Nat) (h : FrameOk w) (hk : k < w.bars.length) :
+    FrameOk (finishIfNot w k) ∧ ((finishIfNot w k).barAt k).b.finished = true ∧
+    ((finishIfNot w k).barAt k).member = (w.barAt k).member ∧ (finishIfNot w k).bars.length = w.bars.length := by
+  unfold finishIfNot
+  split
+  · rename_i hf; exact ⟨h, hf, rfl, rfl⟩
+  · obtain ⟨f1, f2, f3⟩ := finishWith_finished w k (w.barAt k).b (w.barAt k).b.onFinish hk
+    exact ⟨frameOk_finishWith _ _ _ _ h, f1, f2, f3⟩
+
+theorem frameOk_alive (w : RW) (k : Nat) (h : FrameOk w) :
+    FrameOk { w with bars := w.bars.modify k (fun rb => { rb with alive := false }) } := by
+  have e : ∀ j, (({ w with bars := w.bars.modify k (fun rb => { rb with alive := false }) } : RW).barAt j) =
+      if j = k ∧ k < w.bars.length then { w.barAt j with alive := false } else w.barAt j := fun j => barAt_modify w.bars k j _
+  refine frameOk_same w _ h ⟨rfl, rfl, rfl, rfl, by simp, ?_⟩ ?_
+  · intro j; rw [e]; split <;> rfl
+  · intro j hj hf hm
+    simp only [List.length_modify] at hj
+    rw [e] at hf hm ⊢
+    by_cases hjk : j = k ∧ k < w.bars.length
+    · rw [if_pos hjk] at hf hm ⊢; exact h.synced j hj hf hm
+    · rw [if_neg hjk] at hf hm ⊢; exact h.synced j hj hf hm
+
+theorem frameOk_dropBar (w : RW) (k : Nat) (h : FrameOk w) (hk : k < w.bars.length) : FrameOk (dropBar w k) := by
+  unfold dropBar
+  simp only []
+  obtain ⟨g1, g2, g3, g4⟩ := finishIfNot_facts w k h hk
+  apply frameOk_alive
+  split
+  · rename_i hm
+    exact frameOk_markZombie _ k g1 (by omega) g2 (by rw [g3]; exact hm)
+  · exact g1
+
+/-- the frame variant of `Clean`: output of a detached bar's `suspend` closure must not land below a frame -/
+def CleanF (w : RW) : MOp → Prop
+  | .bar k (.suspend out) => (w.barAt k).member = true ∨ out = [] ∨ w.n = 0
+  | _ => True
+
+theorem frameOk_barStep (w : RW) (k : Nat) (op : BarOp) (h : FrameOk w) (hc : CleanF w (.bar k op)) : FrameOk (barStep w k op) := by
+  unfold barStep
+  split
+  · exact h
+  · rename_i hk
+    have hk' : k < w.bars.length := by omega
+    simp only []
+    split
+    · exact h
+    · cases op with
+      | adv d => exact h
+      | tick => exact frameOk_setBar_barDraw w k _ _ _ h
+      | inc d =>
+        simp only []
+        split
+        · exact frameOk_setBar_barDraw w k _ _ _ h
+        · exact frameOk_setBar w k _ h (by rw [posAllow_finished, finished_pos])
+      | dec d =>
+        simp only []
+        split
+        · exact frameOk_setBar_barDraw w k _ _ _ h
+        · exact frameOk_setBar w k _ h (by rw [posAllow_finished, finished_pos])
+      | setPos p =>
+        simp only []
+        split
+        · exact frameOk_setBar_barDraw w k _ _ _ h
+        · exact frameOk_setBar w k _ h (by rw [posAllow_finished, finished_pos])
+      | setMsg t => exact frameOk_setBar_barDraw w k _ _ _ h
+      | setPrefix t => exact frameOk_setBar_barDraw w k _ _ _ h
+      | setLen l => exact frameOk_setBar_barDraw w k _ _ _ h
+      | unsetLen => exact frameOk_setBar_barDraw w k _ _ _ h
+      | println t => simp only []; split <;> first | exact h | exact frameOk_barDraw _ _ _ _ h
+      | suspend out =>
+        simp only []
+        split
+        · rename_i hmem
+          have hmem' : (w.barAt k).member = false := by simpa using hmem
+          simp only [CleanF, hmem', Bool.false_eq_true, false_or] at hc
+          exact frameOk_output w out _ h hc
+        · exact frameOk_suspend w out
+      | reset => exact frameOk_setBar_barDraw w k _ _ _ h
+      | finish f => exact frameOk_finishWith _ _ _ _ h
+      | finishUsingStyle => exact frameOk_finishWith _ _ _ _ h
+      | drop => exact frameOk_dropBar w k h hk'
+
+theorem frameOk_step (w : RW) (op : MOp) (h : FrameOk w) (hc : CleanF w op) : FrameOk (step w op) := by
+  unfold step
+  split
+  · exact h
+  · cases op with
+    | adv dt => exact frameOk_same w _ h ⟨rfl, rfl, rfl, rfl, rfl, fun _ => rfl⟩ (fun j hj hf hm => h.synced j hj hf hm)
+    | add loc arg len tpl fin pfx =>
+      simp only []
+      split
+      · exact frameOk_same w _ h ⟨rfl, rfl, rfl, rfl, rfl, fun _ => rfl⟩ (fun j hj hf hm => h.synced j hj hf hm)
+      · rename_i p _
+        -- the new bar has drawn nothing yet: no painted rows, not finished
+        have hnew : ∀ j, ((w.bars ++ [({ b := { len := len, tpl := templates.getD tpl [], onFinish := fin, pfx := pfx, start := w.now } } : RBar)]).getD j { b := {} }).painted =
+            (w.bars.getD j { b := {} }).painted := by
+          intro j
+          simp only [List.getD_eq_getElem?_getD]
+          by_cases hj : j < w.bars.length
+          · rw [List.getElem?_append_left hj]
+          · rw [List.getElem?_append_right (by omega), List.getElem?_eq_none (by omega : w.bars.length ≤ j)]
+            cases hjj : j - w.bars.length with
+            | zero => simp
+            | succ n => simp
+        constructor
+        · intro hs
+          have := h.frame hs
+          refine ⟨this.1, ?_⟩
+          show w.scr.drop (w.scr.length - w.n) = _
+          rw [this.2]
+          simp only [paintedOf, RW.barAt, insertAt, List.flatMap_append, hnew]
+          have hk0 : (w.bars.getD w.bars.length { b := {} }).painted = [] := by
+            simp [List.getD_eq_getElem?_getD]
+          simp only [List.flatMap_cons, List.flatMap_nil, hk0, List.append_nil]
+          rw [← List.flatMap_append, List.take_append_drop]
+        · intro j hj hf hm
+          simp only [List.length_append, List.length_singleton] at hj
+          simp only [RW.barAt, List.getD_eq_getElem?_getD] at hf hm ⊢
+          by_cases hjl : j < w.bars.length
+          · rw [List.getElem?_append_left hjl] at hf hm ⊢
+            have := h.synced j hjl (by simpa [RW.barAt, List.getD_eq_getElem?_getD] using hf) (by simpa [RW.barAt, List.getD_eq_getElem?_getD] using hm)
+            simpa [RW.barAt, List.getD_eq_getElem?_getD] using this
+          · have : j = w.bars.length := by omega
+            subst this
+            rw [List.getElem?_append_right (Nat.le_refl _)] at hf
+            simp [Bar.finished] at hf
+    | remove k =>
+      simp only []
+      split
+      · exact h
+      · exact frameOk_draw_forced _ _
+    | mpPrintln t => exact frameOk_draw_forced _ _
+    | mpClear => exact frameOk_clear w h
+    | mpSuspend out => exact frameOk_suspend w out
+    | align b => exact h
+    | bar k op => exact frameOk_barStep w k op h hc
+
+def CleanRunF : RW → List MOp → Prop
+  | _, [] => True
+  | w, op :: ops => CleanF w op ∧ CleanRunF (step w op) ops
+
+theorem frameOk_run : ∀ (ops : List MOp) (w : RW), FrameOk w → CleanRunF w ops → FrameOk (run w ops) := by
+  intro ops
+  induction ops with
+  | nil => intro w h _; exact h
+  | cons op ops ih =>
+    intro w h hc
+    simp only [run, List.foldl_cons]
+    exact ih (step w op) (frameOk_step w op h hc.1) hc.2
+
+theorem frameOk_init (lim : Option (Limiter.Cfg × Limiter.St)) (now : Nat) : FrameOk { limiter := lim, now := now } :=
+  ⟨fun _ => ⟨by simp, by simp [paintedOf]⟩, fun j hj _ _ => by simp at hj⟩
 
 end IndicatifModel.Rows
